@@ -320,8 +320,9 @@ HARNESSES = [
                            "split": "every assignment of stream items to the two merged halves"},
       assumptions=["BloomFilter._hash replaced by an arbitrary function into the position table (sha256 behind a C boundary)"],
       outside=["filter sizes / hash counts other than 70 bits x 2", "the false-positive rate"]),
-    H(name="c20_cms", fn=cms, shape="S", budget=lambda tier: 400.0,
-      cubes=lambda tier: [{"h_a_0": x, "h_a_1": y, "item1": i} for x in range(2) for y in range(2) for i in range(3)],
+    H(name="c20_cms", fn=cms, shape="S", budget=lambda tier: 400.0 if tier == "quick" else 2400.0,
+      cubes=lambda tier: [dict({"h_a_0": x, "h_a_1": y, "item1": i}, **({} if tier == "quick" else {"item2": j, "to_a1": t}))
+                          for x in range(2) for y in range(2) for i in range(3) for j in ((0,) if tier == "quick" else range(3)) for t in ((0,) if tier == "quick" else range(2))],
       require=lambda tier: ["full_collision"],
       functions=["CountMinSketch.add/estimate/merge"],
       bounds=lambda tier: {"width": 2, "depth": 2, "adds": 3 if tier == "quick" else 4, "counts": "symbolic [0,5]"},
